@@ -1038,6 +1038,9 @@ func (tab *tabulated) build(ex *Exec, args []Val) {
 		key := fmt.Sprintf("tab:%s#%d", tab.fn.Name(), i)
 		hi, ok := ex.eng.Cfg.Bounds[key]
 		if !ok {
+			hi, ok = ex.eng.Cfg.Bounds["tab:*"]
+		}
+		if !ok {
 			panic(inconclusive{"no domain bound " + key + " for tabulated function"})
 		}
 		tab.hi[i] = int64(hi)
